@@ -9,6 +9,9 @@
 (*                                                                         *)
 (*   C20_..    property lane: the clauses of property C20 (Avs!PropTags)    *)
 (*             evaluated on OBSERVED pre/post states, arguments and result. *)
+(*   C11_Halt  property lane of C11: the real app.BeginBlocker panicked (a   *)
+(*             panic in a block phase is not recovered by baseapp: the node  *)
+(*             stops, the block is never committed).                         *)
 (*   STRICT_.. strict lane: observed post-state / result differ from        *)
 (*             Apply(pre, event, args) of spec/Avs.tla with DEVS = the      *)
 (*             deviations of the current tree (drift, never a violation).   *)
@@ -27,7 +30,8 @@ t_PREC == "1000000000000000000"
 t_U64 == "18446744073709551616"
 t_EPOCH0 == Hdr.epoch0
 t_TICKID == Hdr.tickid
-t_DEVS == {"EmptySigPhase1", "SymDiff", "ChallengeWrapNil"}
+\* deviations of the tree AFTER the fix commits 9d0a8b8 (L10) and 4ac3ef5 (L21): only the symmetric difference is left
+t_DEVS == {"SymDiff"}
 
 VARIABLES l, L, G
 vars == <<l, L, G>>
@@ -69,6 +73,9 @@ RawTags(j, st) ==
   T(\A a \in AVSS : j.optlist[a] = OptRecordList(st, a), "STRICT_optlist") \cup
   T(\A r \in Range(j.chal) : r.exists, "STRICT_chalscan")
 
+\* C11: Tick is the only block phase this family executes (BeginBlock with every module's BeginBlocker)
+HaltTags(ev, panic) == IF ev = "Tick" /\ panic THEN {"C11_Halt"} ELSE {}
+
 StrictTags(pre, post, ev, a, ok, panic) ==
   LET r == Apply(pre, ev, a) IN
   T(r.st = post, "STRICT_state_" \o ev) \cup
@@ -92,6 +99,7 @@ Next ==
      ELSE
        LET post == FromLog(line.st)
            tags == PropTags(L, post, G, line.ev, line.a, line.ok, line.panic) \cup RawTags(line.st, post) \cup
+                   HaltTags(line.ev, line.panic) \cup
                    StrictTags(L, post, line.ev, line.a, line.ok, line.panic)
        IN /\ L' = post /\ G' = GhostStep(G, post, line.ev, line.a, line.ok)
           /\ tags = {} \/ PrintT("TAG " \o ToJson([l |-> l, ev |-> line.ev, tags |-> tags,
